@@ -228,8 +228,31 @@ def audit_axioms(pid: str, modules: List[str], theorems: List[str]) -> Tuple[Dic
         # two property modules of one check that cannot be imported into ONE file (their lemma files declare the
         # same names: e.g. AcnProofs.C02 / AcnProofs.C02Json through Lemmas.EventCoreSim / Lemmas.ResumeRun): audit
         # each module in a file of its own, with the theorems stated in it
-        log = ""
-        for k, m in enumerate(modules):
+        # first try TWO files: the message names the lemma module whose import failed; the property modules that have it
+        # in their import closure go into one file, the others into another (2 elaborations instead of one per module)
+        grouped = None
+        mm = re.search(r"import (\S+) failed, environment already contains", log)
+        if mm:
+            bad = os.path.join(LEAN, *mm.group(1).split(".")) + ".lean"
+            g2 = [m for m in modules if bad in local_closure([m])]
+            g1 = [m for m in modules if m not in g2]
+            if g1 and g2:
+                glog = ""
+                for k, grp in enumerate((g1, g2)):
+                    mine = [t for m in grp for t in theorems_in(m) if t in theorems]
+                    pk = os.path.join(d, f"{pid}_g{k}.lean")
+                    with open(pk, "w") as f:
+                        for m in grp:
+                            f.write(f"import {m}\n")
+                        for t in mine:
+                            f.write(f"#print axioms {t}\n")
+                    with _Lock():
+                        q = subprocess.run(["lake", "env", "lean", pk], cwd=LEAN, capture_output=True, text=True, timeout=1800)
+                    glog += q.stdout + q.stderr
+                if "environment already contains" not in glog:
+                    grouped = glog
+        log = grouped or ""
+        for k, m in enumerate(modules if grouped is None else []):
             mine = [t for t in theorems_in(m) if t in theorems]
             pk = os.path.join(d, f"{pid}_{k}.lean")
             with open(pk, "w") as f:
